@@ -789,7 +789,7 @@ class Batch:
                 continue
             for g, l in zip(order, lists):
                 body = l.strip()[1:-1].strip()
-                bad = [int(x) for x in body.split(";")] if body else []
+                bad = [int(x.replace("%nat", "").strip()) for x in body.split(";")] if body else []
                 n += len(f["groups"][g])
                 for b in bad:
                     mism.append((g, f["groups"][g][b][1]))
